@@ -20,8 +20,8 @@ Import ListNotations.
    each entry justified there), and no runtime handle (otto.Otto, otto.runtime) is ever
    shallow-copied *)
 Theorem C20_no_runtime_writes :
-  audit pkg_vars struct_fields call_edges struct_copies clone_fields = true /\
-  table_sane pkg_vars struct_fields call_edges struct_copies clone_fields translator_type_errors = true /\
+  audit pkg_vars struct_fields call_edges struct_copies clone_fields native_closures = true /\
+  table_sane pkg_vars struct_fields call_edges struct_copies clone_fields native_closures translator_type_errors = true /\
   forall w, runtime_writable pkg_vars struct_fields w = false.
 Proof. exact (conj no_runtime_writes (conj table_is_sane no_shared_location_writable)). Qed.
 Print Assumptions C20_no_runtime_writes.
@@ -89,27 +89,30 @@ Print Assumptions C20_script_immutable.
    to a compiled node outside the compiler, and a new caller of an allow-listed mutator *)
 Example C20_audit_rejects_runtime_store :
   audit [mkVar "otto.cache" "map[string]int" true "x.go" 1
-           [mkSite KElem "otto.builtinX" "x.go" 9 false "= via [i]"]] [] [] [] [] = false.
+           [mkSite KElem "otto.builtinX" "x.go" 9 false "= via [i]"]] [] [] [] [] [] = false.
 Proof. vm_compute. reflexivity. Qed.
 Example C20_audit_rejects_node_annotation :
   audit [] [mkField "otto.nodeIdentifier" "cached" "int" "cmpl.go" 1
-              [mkSite KAssign "otto.cmplEvaluateNodeExpression" "cmpl_evaluate_expression.go" 9 false "="]] [] [] [] = false.
+              [mkSite KAssign "otto.cmplEvaluateNodeExpression" "cmpl_evaluate_expression.go" 9 false "="]] [] [] [] [] = false.
 Proof. vm_compute. reflexivity. Qed.
 Example C20_audit_rejects_new_register_caller :
-  audit [] [] [mkCall "registry.Register" "otto.New" "otto.go" 250 false] [] [] = false.
+  audit [] [] [mkCall "registry.Register" "otto.New" "otto.go" 250 false] [] [] [] = false.
 Proof. vm_compute. reflexivity. Qed.
 Example C20_audit_rejects_handle_copy :
-  audit [] [] [] [mkCopy "otto.Otto" "otto.Copy" "otto.go" 640 "*p assigned"] [] = false.
+  audit [] [] [] [mkCopy "otto.Otto" "otto.Copy" "otto.go" 640 "*p assigned"] [] [] = false.
 Proof. vm_compute. reflexivity. Qed.
 Example C20_audit_rejects_untranslated_object_field :
-  audit [] [] [] [] [mkCloneField "otto.runtime" "callerGet" "*otto.object" true "verbatim" "otto.clone" "clone.go" 24] = false.
+  audit [] [] [] [] [mkCloneField "otto.runtime" "callerGet" "*otto.object" true "verbatim" "otto.clone" "clone.go" 24] [] = false.
 Proof. vm_compute. reflexivity. Qed.
 Example C20_audit_accepts_carried_setting :
-  audit [] [] [] [] [mkCloneField "otto.runtime" "random" "func() float64" false "verbatim" "otto.clone" "clone.go" 21] = true.
+  audit [] [] [] [] [mkCloneField "otto.runtime" "random" "func() float64" false "verbatim" "otto.clone" "clone.go" 21] [] = true.
+Proof. vm_compute. reflexivity. Qed.
+Example C20_audit_rejects_native_closure_writing_captured_object :
+  audit [] [] [] [] [] [mkClosure "otto.newErrorObject" "type_error.go" 19 "obj" "*otto.object" "call"] = false.
 Proof. vm_compute. reflexivity. Qed.
 Example C20_audit_accepts_init_store :
   audit [mkVar "otto.classObject" "*otto.objectClass" true "object_class.go" 32
-           [mkSite KAssign "otto.init" "object_class.go" 42 true "="]] [] [] [] [] = true.
+           [mkSite KAssign "otto.init" "object_class.go" 42 true "="]] [] [] [] [] [] = true.
 Proof. vm_compute. reflexivity. Qed.
 
 (* the hypotheses are satisfiable: a behaviour that only touches its own heap
